@@ -1167,9 +1167,56 @@ func checkSetNode(w *World, r *Report) {
 	evalM := w.method("RenderContext", "EvaluateExpression")
 	ctxParam := fn.Params[2]
 	n := 0
+	// another way of writing a context's variables than the binding primitive
+	writesVars := func(g *ssa.Function) bool {
+		found := false
+		seen := map[*ssa.Function]bool{}
+		var scan func(h *ssa.Function, d int)
+		scan = func(h *ssa.Function, d int) {
+			if h == nil || seen[h] || d > 3 || found {
+				return
+			}
+			seen[h] = true
+			instrsOf(h, func(x ssa.Instruction) {
+				if mu, ok := x.(*ssa.MapUpdate); ok {
+					if _, ok := fieldLoad(mu.Map, "RenderContext", "context"); ok {
+						found = true
+					}
+				}
+				if c, ok := x.(ssa.CallInstruction); ok {
+					if k := c.Common().StaticCallee(); k != nil && isTwigFn(k) {
+						scan(k, d+1)
+					}
+				}
+			})
+		}
+		scan(g, 0)
+		return found
+	}
 	instrsOf(fn, func(in ssa.Instruction) {
 		c, ok := in.(*ssa.Call)
-		if !ok || calleeFunc(c) != setVar {
+		if !ok {
+			return
+		}
+		if calleeFunc(c) != setVar {
+			if g := c.Call.StaticCallee(); g != nil && isTwigFn(g) && g.Signature.Recv() != nil && isNamed(deref(g.Signature.Recv().Type()), twigPath, "RenderContext") && calleeFunc(c) != evalM && writesVars(g) && w.ssaFunc(setVar) != g {
+				// does it simply hand (name, value) on to SetVariable on its own receiver?
+				forwards := false
+				instrsOf(g, func(x ssa.Instruction) {
+					if c2, ok := x.(*ssa.Call); ok && calleeFunc(c2) == setVar && len(g.Params) >= 3 {
+						a2 := callArgs(c2)
+						if callRecv(c2) == ssa.Value(g.Params[0]) && a2[0] == ssa.Value(g.Params[1]) && a2[1] == ssa.Value(g.Params[2]) {
+							forwards = true
+						}
+					}
+				})
+				n++
+				if !forwards {
+					r.bad("R09.5", ssaName(fn), "set binds through the binding primitive", w.posOf(in.Pos()), "set stores the variable through "+g.Name()+", which writes context variables in its own way instead of handing (name, value) to SetVariable on the same context: which scope receives the value is no longer the template's own (an assignment in an included template or a loop body can change the enclosing template's variable)")
+				} else {
+					r.ok("R09.5", ssaName(fn), "set binds through the binding primitive", w.posOf(in.Pos()), g.Name()+" forwards to SetVariable on its receiver", true)
+				}
+			}
 			return
 		}
 		n++
